@@ -63,6 +63,8 @@ type harness struct {
 	// probes
 	mustLoadFatal bool // malformed file terminates the process (unfixed DefaultFileParser)
 	faultChecks   int
+	defaults      map[string]string // ApplyDefault's table, taken from the implementation
+	defaultKeys   []string
 	notifyReset   bool           // the implementation runs the observers after a reset to the defaults (fix-D46 applied)
 	longLinesOK   bool           // lines longer than bufio's buffer survive a write-back (fix-D45 applied): generate them
 	hangs         map[string]int // hangs seen per re-entrant observer kind (a kind that hung twice is not tried again)
@@ -647,6 +649,8 @@ type writeCase struct {
 	pre, suf     string
 	excl         []string
 	viaSetValues bool
+	noModel      bool // too large for the compiled model (deep recursion): judged by the direct clauses only
+	foreignTemp  bool // files named like temporary files lie in the directory before the write
 }
 
 func finalKeyOf(w writeCase, k string) (string, bool) {
@@ -803,13 +807,62 @@ func (h *harness) streamWrite(n int) {
 				w.excl = []string{h.rng.PickStr(simpleKeys)}
 			}
 		}
+		w.foreignTemp = h.rng.Chance(25)
 		h.oneWrite(parser, w, wfOnly, i)
+	}
+	h.streamLongLines(parser)
+}
+
+// streamLongLines: one line of a length around every buffer size a line reader may have (4096: bufio.Reader,
+// 65536: bufio.Scanner's token limit, and beyond), as a value, a comment and a line without '=', followed by
+// comments and keys: after the write-back everything after the long line must still be there, in place.
+func (h *harness) streamLongLines(parser *conffile.DefaultFileParser) {
+	if !h.longLinesOK {
+		return // the long-line defect is present (reported by its own replay); nothing to add
+	}
+	lens := []int{4095, 4096, 4097, 8191, 8192, 8193, 65535, 65536, 65537, 100 << 10}
+	kinds := []string{"value", "comment", "junk"}
+	if h.env.Thorough {
+		lens = append(lens, 1<<20, 1<<20+1)
+	} else {
+		lens = append(lens, 1<<20)
+	}
+	for li, n := range lens {
+		for ki, kind := range kinds {
+			if !h.env.Thorough && n >= 100<<10 && ki != li%3 {
+				continue // quick: one kind per huge length
+			}
+			var long string
+			switch kind {
+			case "value":
+				long = "big=" + strings.Repeat("v", n-4)
+			case "comment":
+				long = "# " + strings.Repeat("c%d ", n/4+1)[:n-2]
+			default:
+				long = strings.Repeat("w", n/2) + " " + strings.Repeat("x", n-n/2-1)
+			}
+			text := "first=1\n# head comment\n" + long + "\n# after = the long line\nmid=2\n! bang %s\nplain words after\nlast=3\n"
+			w := writeCase{text: text, kvs: map[string]string{"mid": "changed", "added": "new"}, viaSetValues: li%2 == 0}
+			w.noModel = n > 20000
+			h.rep.Count(fmt.Sprintf("write:long-line:%s", kind))
+			h.oneWrite(parser, w, false, 1000)
+		}
 	}
 }
 
 func (h *harness) oneWrite(parser *conffile.DefaultFileParser, w writeCase, wfOnly bool, idx int) {
 	dir, path := h.newDir()
 	writeFile(path, w.text)
+	entriesBefore := 1
+	if w.foreignTemp {
+		// leftovers of somebody's interrupted write, longer than anything this write produces
+		junk := strings.Repeat("zzz_leftover=from an interrupted write\n", 400+len(w.text)/30)
+		for _, n := range []string{"whatap.conf.tmp", "whatap.conf.tmp123456789", ".whatap.conf.swp", "whatap.conf~"} {
+			writeFile(filepath.Join(dir, n), junk)
+			entriesBefore++
+		}
+		h.rep.Count("write:foreign-temp-files")
+	}
 	// final assignments (after exclusions / prefix / suffix); colliding final keys make the outcome depend on
 	// map iteration order: skip those
 	assigned := map[string]string{}
@@ -869,7 +922,7 @@ func (h *harness) oneWrite(parser *conffile.DefaultFileParser, w writeCase, wfOn
 		h.rep.Sample(map[string]interface{}{"stream": "write", "text": vh.Clip(w.text, 300), "kvs": w.kvs, "written": vh.Clip(newText, 300)})
 	}
 	// leftovers of the temp-file protocol
-	if ents, _ := os.ReadDir(dir); len(ents) != 1 {
+	if ents, _ := os.ReadDir(dir); len(ents) != entriesBefore {
 		h.rep.Fail("property", "writeback:temp-file-left", fmt.Sprintf("%d entries in the directory after the write-back", len(ents)), replay)
 	}
 
@@ -936,6 +989,10 @@ func (h *harness) oneWrite(parser *conffile.DefaultFileParser, w writeCase, wfOn
 	}
 
 	// ---- the model
+	if w.noModel {
+		h.rep.Count("write:direct-clauses-only")
+		return
+	}
 	h.add(check{line: line, cmp: func(got string) bool { return matchWrite(newText, got) }, onDiff: func(got string) {
 		for _, b := range bad {
 			if b[0] == "comment" {
